@@ -11,7 +11,7 @@ from vlib.runner import Stats, Violation, sut
 ID = "C13"
 RULE = (
     "case = instant (int us 1970..2100, boundary-biased) x UTC offset (whole minutes in [-14h,+14h]) x presentation "
-    "(aware datetime | ISO-8601 spelling: T/space, 0/3/6 fraction digits, Z, +hh:mm, +hhmm) x duration (int s | float s | timedelta, "
+    "(aware datetime at a fixed offset | aware datetime in a real DST-observing zone from zoneinfo, instants biased to the repeated/skipped hour so that fold=1 occurs | ISO-8601 spelling: T/space, 0/3/6 fraction digits, Z, +hh:mm, +hhmm) x duration (int s | float s | timedelta, "
     "negative allowed, |d| <= 1e7 s) x JSON data x id (None|int|str). Oracle: integer-arithmetic ms floor, exact-rational duration "
     "rounding (<= 1/2 us), schema validation with date-time format checking, equality+id after JSON and Event(**event) round trips. "
     "Non-trivial = (us % 1000 != 0 and offset != 0) or a float duration that is not an exact multiple of 1 us. Distinct by SHA-1 of the case. "
@@ -45,7 +45,21 @@ def _durations():
     )
 
 
+ZONES = ["Europe/Berlin", "America/New_York", "Australia/Lord_Howe", "Asia/Kolkata", "America/St_Johns", "Pacific/Apia", "Europe/London", "UTC"]
+# UTC instants (s) of DST transitions: the repeated / skipped local hour is where `fold` matters
+TRANSITIONS = [1635642000, 1616893200, 1636264800, 1615705200, 1617463800, 1633188600, 1635642000 + 365 * 86400, 1667091600, 972781200, 2540163600]
+
+
+def _zone_instants():
+    near = st.tuples(st.sampled_from(TRANSITIONS), st.integers(-7200, 7200), gen.us_parts()).map(lambda t: (t[0] + t[1]) * 10**6 + t[2])
+    return st.one_of(near, near, gen.instants())
+
+
 def strategy(tier):
+    return st.one_of(_plain(), _plain(), _plain().flatmap(lambda c: st.tuples(_zone_instants(), st.sampled_from(ZONES)).map(lambda t: dict(c, present="zone", us=t[0], zone=t[1]))))
+
+
+def _plain():
     return st.fixed_dictionaries(
         {
             "us": gen.instants(),
@@ -93,6 +107,15 @@ def run_case(case):
     us, off = case["us"], case["off"]
     if case["present"] == "dt":
         tsin = gen.dt_at(us, off)
+    elif case["present"] == "zone":
+        # an aware datetime in a real (DST-observing) zone; astimezone sets `fold` in the repeated hour
+        try:
+            import zoneinfo
+
+            tsin = gen.dt_utc(us).astimezone(zoneinfo.ZoneInfo(case["zone"]))
+        except Exception:
+            tsin = gen.dt_at(us, off)
+        off = int(tsin.utcoffset().total_seconds() // 60)
     else:
         tsin = gen.iso_spelling(us, off, case["style"])
     dk, dv = case["dur"]["kind"], case["dur"]["value"]
@@ -138,6 +161,8 @@ def run_case(case):
         _check_ts(x, us, name)
     nontrivial = (us % 1000 != 0 and off != 0) or (dk == "float" and exact.denominator != 1)
     classes = [case["present"], "dur_" + dk]
+    if case["present"] == "zone" and getattr(tsin, "fold", 0):
+        classes.append("zone_fold_1")
     if us % 1000:
         classes.append("sub_ms")
     if off:
